@@ -4,8 +4,8 @@
    planners byte for byte on every run).   SQL semantics for window_semantic: model/SqlEval.v (C07, trusted). *)
 From Coq Require Import List ZArith NArith QArith String Ascii Bool.
 From Qryn Require Import lib.Strs lib.CivilDate model.Sql model.SqlRender model.SqlEval model.Logql model.LogqlPlan model.Scans
-  model.ScanCases model.ScansTq proofs.ScansProofs proofs.ScansPlanProofs proofs.ScansSemProofs proofs.ScansTqProofs proofs.ScansPromProofs proofs.ScansLabelProofs proofs.ScansProfProofs.
-From Qryn Require Import model.PromSel model.ProfSel model.ScansPlanners.
+  model.ScanCases model.ScansTq proofs.ScansProofs proofs.ScansPlanProofs proofs.ScansSemProofs proofs.ScansTqProofs proofs.ScansPromProofs proofs.ScansLabelProofs proofs.ScansProfProofs proofs.ScansReplanProfProofs.
+From Qryn Require Import model.PromSel model.ProfSel model.ScansPlanners model.ReplanProf model.ScansProf.
 From Qryn Require model.TqSql model.Traceql model.TraceqlPlan.
 Import ListNotations.
 Open Scope Z_scope.
@@ -211,13 +211,43 @@ Print Assumptions prom_labels_fetch_bounded_refuted.
 
 (* ---- Pyroscope stream selector (model/ProfSel.v, C17: StreamSelectorPlanner, the fingerprint selection every
    Pyroscope label / series / merge / render request starts from): for every selector list and window, the read of
-   profiles_series_gin has date >= FormatFromDate(From) and date <= day(To).  (The planners around it - label names
-   and values, select series, merge - are judged per recorded statement.) *)
+   profiles_series_gin has date >= FormatFromDate(From) and date <= day(To). *)
 Theorem prof_selector_every_scan_bounded : forall info gin from_ns to_ns sels,
   info gin = idx_untyped ->
   Forall (scan_bounded info (prof_win from_ns to_ns)) (scans (prof_selector gin from_ns to_ns sels)).
 Proof. exact prof_selector_scans_bounded. Qed.
 Print Assumptions prof_selector_every_scan_bounded.
+
+(* ---- the Pyroscope planners around the selector (model/ReplanProf.v, C14's transcription of every planner of
+   reader/prof/transpiler: label names / values over a UNION ALL of selectors, merge raw / joined / aggregated, get labels,
+   select series, merge profiles, time series with and without selector, distinct, filter labels, profile size; tied byte
+   for byte to the Go planners by C14's replan correspondence and, in C13's own run, to the statements recorded from the
+   Pyroscope endpoints).  For EVERY planner object - any nesting the constructors allow, not only the seven plans
+   transpiler.go builds -, selector lists, type id, group-by list, step and context whose table names are classified as the
+   schema has them: every base-table read of the result of Process (the select with its WITH list, the other members of a
+   UNION ALL, the members kept under a WITH alias) is bounded: profiles by timestamp_ns >= From and < To or <= To,
+   profiles_series and profiles_series_gin by date >= FormatFromDate(From) and date <= day(To). *)
+Theorem prof_every_scan_bounded : forall info c p r,
+  prof_tables info c -> pprocess p c = Some r -> Forall (scan_bounded info (prctx_win c)) (presult_scans r).
+Proof. exact prof_planners_scans_bounded. Qed.
+Print Assumptions prof_every_scan_bounded.
+
+(* ... in particular every request kind of the profile API (PlanLabelNames, PlanLabelValues, PlanMergeTraces = merge stack
+   traces and render-diff, PlanSelectSeries, PlanMergeProfiles, PlanSeries, PlanAnalyzeQuery) with any parameters, on the
+   single-node and the cluster table names of tables.PopulateTableNames with any database name, for every answer table e of
+   the regular-expression oracle (which selectors accept a missing label and become exclusion sub-queries) *)
+Theorem prof_requests_every_scan_bounded : forall cluster db from_ns to_ns e req r,
+  pprocess (preq_plan req) (prof_ctx_e cluster db from_ns to_ns e) = Some r ->
+  Forall (scan_bounded table_info (prctx_win (prof_ctx_e cluster db from_ns to_ns e))) (presult_scans r).
+Proof. exact prof_requests_scans_bounded. Qed.
+Print Assumptions prof_requests_every_scan_bounded.
+
+(* ProfService.ProfileTypes (start / end in milliseconds): dates day(start) .. day(end) *)
+Theorem profile_types_every_scan_bounded : forall info table start_ms end_ms,
+  info table = idx_untyped ->
+  Forall (scan_bounded info (ms_win start_ms end_ms)) (scans (profile_types_query table start_ms end_ms)).
+Proof. exact profile_types_scans_bounded. Qed.
+Print Assumptions profile_types_every_scan_bounded.
 
 (* ---- TraceQL planners (model/TraceqlPlan.v, C11; tied byte for byte to clickhouse_transpiler) ----------------
    tq_scans enumerates the base-table reads of a TqSql tree (model/ScansTq.v).  For EVERY script, mode (search /
@@ -296,3 +326,11 @@ Example prof_guard_met :
   List.length (scans (prof_selector "profiles_series_gin" 1704888000000000000 1704891600000000000
      [{| sl_name := "service_name"; sl_op := MEq; sl_val := "svc" |}; {| sl_name := "a"; sl_op := MRe; sl_val := "b.*" |}])) = 1%nat.
 Proof. exact prof_example. Qed.
+Example prof_planner_guards_met :
+  (forall cluster db f t, prof_tables table_info (prof_ctx cluster db f t)) /\
+  [nscans_of (RMergeTraces [sel_ab] tid0); nscans_of (RSelectSeries [sel_ab; sel_job] tid0 ["a"%string] false 15);
+   nscans_of (RSeries [[sel_ab]; [sel_job]] ["a"%string]); nscans_of (RLabelNames [[sel_ab]; [sel_job]]); nscans_of (RAnalyze [sel_ab]);
+   nscans_of (RLabelValues [] "job"); nscans_of (RMergeProfiles [sel_ab] tid0); nscans_of (RMergeProfiles [sel_ab; sel_absent] tid0)]
+   = [29; 9; 29; 4; 8; 1; 3; 5] /\
+  List.length (scans (profile_types_query "profiles_series_dist" 1704888000000 1704891600000)) = 1%nat.
+Proof. split; [exact prof_ctx_tables | exact prof_examples]. Qed.
